@@ -261,6 +261,11 @@ def helper_rules(chk, repo):
 
 
 def reduce_rules(chk, repo):
+    boundary_axis_rule(chk, repo)
+    _reduce_rules(chk, repo)
+
+
+def boundary_axis_rule(chk, repo):
     # util.boundary: rows reduce over axis 1, columns over axis 0
     f, paths, _ = analyse(repo, 'util.boundary')
     for p in returns(paths):
@@ -279,6 +284,9 @@ def reduce_rules(chk, repo):
                     axes.add(int(a[2][1].const_value()))
             chk.ob('C20-e', 'U-axis', f.key, f'component {k} reduces over axis {want_axis}', axes == {want_axis},
                    f'{"row" if k < 2 else "column"} bound computed from any(x, axis={sorted(axes)})', f.loc(p.node))
+
+
+def _reduce_rules(chk, repo):
     # rebin
     f, paths, _ = analyse(repo, 'util.rebin', facts={nf.attr(S('img'), 'ndim').single_atom(): C(2)})
     fac = S('factor')
